@@ -231,6 +231,14 @@ where
     {
       let mut guard = shard.map.write();
       old_entry = guard.insert(key.clone(), Arc::new(new_cache_entry));
+      // Account for this entry while the shard is still locked: every removal path (remove,
+      // eviction, expiry, clear) subtracts an entry's cost after taking it out under this same
+      // lock, so the cost must already be in `current_cost` by then or the gauge drifts.
+      let metrics = &self.shared.metrics;
+      metrics.current_cost.fetch_add(cost, Ordering::Relaxed);
+      if let Some(entry) = &old_entry {
+        metrics.current_cost.fetch_sub(entry.cost(), Ordering::Relaxed);
+      }
     }
 
     if let Some(entry) = old_entry {
@@ -243,12 +251,6 @@ where
           wheel.cancel(handle);
         }
       }
-      let old_cost = entry.cost();
-      self
-        .shared
-        .metrics
-        .current_cost
-        .fetch_sub(old_cost, Ordering::Relaxed);
     }
 
     let _ = shard
@@ -261,11 +263,6 @@ where
       .metrics
       .keys_admitted
       .fetch_add(1, Ordering::Relaxed);
-    self
-      .shared
-      .metrics
-      .current_cost
-      .fetch_add(cost, Ordering::Relaxed);
     self
       .shared
       .metrics
@@ -303,6 +300,14 @@ where
     {
       let mut guard = shard.map.write();
       old_entry = guard.insert(key.clone(), Arc::new(new_cache_entry));
+      // Account for this entry while the shard is still locked: every removal path (remove,
+      // eviction, expiry, clear) subtracts an entry's cost after taking it out under this same
+      // lock, so the cost must already be in `current_cost` by then or the gauge drifts.
+      let metrics = &self.shared.metrics;
+      metrics.current_cost.fetch_add(cost, Ordering::Relaxed);
+      if let Some(entry) = &old_entry {
+        metrics.current_cost.fetch_sub(entry.cost(), Ordering::Relaxed);
+      }
     }
 
     if let Some(entry) = old_entry {
@@ -314,12 +319,6 @@ where
           wheel.cancel(handle);
         }
       }
-      let old_cost = entry.cost();
-      self
-        .shared
-        .metrics
-        .current_cost
-        .fetch_sub(old_cost, Ordering::Relaxed);
     }
 
     let _ = shard
@@ -332,11 +331,6 @@ where
       .metrics
       .keys_admitted
       .fetch_add(1, Ordering::Relaxed);
-    self
-      .shared
-      .metrics
-      .current_cost
-      .fetch_add(cost, Ordering::Relaxed);
     self
       .shared
       .metrics
@@ -549,8 +543,10 @@ where
 
     // 2. Iterate through each shard, notify the corresponding policy for each
     //    key being removed, and then clear the shard's map.
+    let mut cleared_cost = 0u64;
     for (i, guard) in shard_guards.iter_mut().enumerate() {
       let policy = &self.shared.cache_policy[i];
+      cleared_cost += guard.values().map(|e| e.cost()).sum::<u64>();
       for key in guard.keys() {
         // This is the crucial step you identified.
         policy.on_remove(key);
@@ -569,7 +565,7 @@ where
       .shared
       .metrics
       .current_cost
-      .store(0, std::sync::atomic::Ordering::Relaxed);
+      .fetch_sub(cleared_cost, std::sync::atomic::Ordering::Relaxed);
   }
 
   /// Returns a concurrent-safe iterator over the key-value pairs in the cache.
